@@ -9,7 +9,7 @@ RULE = ('one sequence operator (first/last/take/distinct/distinct_until_changed/
         '(incl. leading None), lengths that are / are not multiples of n, n = 0, 1, > len; run per key on a mux '
         'trace with 1-3 interleaved keys and reused slots, and on a plain observable where the operator accepts '
         'one; a scale family with parameters and lengths of 257 and more (up to ~2000 items per key). non-trivial = sequence of >= 2 items; distinct = distinct case JSON')
-TRUSTED = ['modelled not verified: Python sorted() stability, ==/hash, RxPY first/last/take/to_list on plain observables']
+TRUSTED = ['modelled not verified: Python sorted() (tied to its Coq specification by comparison only; non-integer sort keys: oracle only), ==/hash, RxPY first/last/take/to_list on plain observables']
 ASSUMPTIONS = ['items are ints / None; key mappers are total']
 SHARD = 200
 COQ_TARGETS = ['theories/Mux/MuxCorr.vo']
@@ -272,7 +272,7 @@ def coq_model_expr(case):
 
 
 CLAIM = {
-    'text': 'Theorems (Coq), timed (what is emitted while each item is consumed + at completion), for every item sequence and parameter: take/first/last, distinct (first occurrence per == class), lag(1) and lag(n) (item n back or first item), pad_start/pad_end/start_with (nothing for an empty key), map/filter; bridge theorem from the slot-level machine on any keyed trace to these list semantics. batch(n) and distinct_until_changed as rxsci defines them (scan with their accumulators, filter, map): chunks of exactly n items plus a final non-empty shorter chunk whose concatenation is the input; one item per run of == keys. sort is plain-only (Python sorted is an oracle). Oracle: the list definitions in Python, mux per key and plain.',
+    'text': 'Theorems (Coq), timed (what is emitted while each item is consumed + at completion), for every item sequence and parameter: take/first/last, distinct (first occurrence per == class), lag(1) and lag(n) (item n back or first item), pad_start/pad_end/start_with (nothing for an empty key), map/filter; bridge theorem from the slot-level machine on any keyed trace to these list semantics. batch(n) and distinct_until_changed as rxsci defines them (scan with their accumulators, filter, map): chunks of exactly n items plus a final non-empty shorter chunk whose concatenation is the input; one item per run of == keys. sort (plain-only): the model of sorted(items, key, reverse) for integer sort keys is a permutation, ordered by the key, equal keys in source order also with reverse, and the only such list; rs.data.sort is compared with that model evaluated in Coq. Oracle: the list definitions in Python, mux per key and plain.',
     'note': 'Trusted: Coq kernel+VM; hand-written model; Python sorted stability, == and hash modelled not verified.',
     'technique': 'Coq proof (forward-simulation refinement of a slot-level model by per-key local machines, list-level induction) + vm_compute correspondence against /repo + model-free oracle',
 }
